@@ -233,26 +233,25 @@ def reqFields (r : Req) : List Field :=
 def reqTrailerFields (t : HMap) : List Field :=
   t.flatMap (fun e => e.2.map (fun v => ⟨lower e.1, v⟩))
 
-/-- submitted request → wire message. -/
+/-- `writeRequest`: `hasBody := actualContentLength(req) != 0`. Without a body nothing is written
+after the request headers. -/
+def Req.hasBody (r : Req) : Bool := !(r.actualCL == 0)
+
+/-- submitted request → wire message. A request without a body (`Body == nil`) ends with its
+headers: its announced trailers are not sent (as in HTTP/1, where trailers follow a chunked body);
+the `trailer` field announcing them stays in the header block. -/
 def clientNorm (r : Req) : Msg :=
-  { headers := reqFields r, body := r.body, trailers := reqTrailerFields r.trailer }
+  { headers := reqFields r,
+    body := if r.hasBody then r.body else [],
+    trailers := if r.hasBody then reqTrailerFields r.trailer else [] }
 
-/-- does the client put END_STREAM on HEADERS (`!HasBody && !HasTrailers`)? -/
-def Req.earlyEnd (r : Req) : Bool := r.actualCL == 0 && r.trailer.isEmpty
-
-/-- **As the code is.** `clientStream.writeRequest` skips the body phase — which is also what sends
-the trailers and the final END_STREAM — when `actualContentLength(req) == 0` (`Body == nil`), while
-`encodeAndWriteHeaders` leaves END_STREAM off the HEADERS frame whenever trailers are announced
-(`endStream := !res.HasBody && !res.HasTrailers`). A request with no body but a non-empty `Trailer`
-therefore never ends its stream. -/
-def Req.neverEnds (r : Req) : Bool := r.actualCL == 0 && !r.trailer.isEmpty
+/-- does the client put END_STREAM on HEADERS (`endStream := !res.HasBody`)? -/
+def Req.earlyEnd (r : Req) : Bool := !r.hasBody
 
 /-- the frames the Transport writes for a request (`encodeAndWriteHeaders` + `writeRequestBody`),
 for a plan `p` (stream id, peer's frame size, cut sequence, END_STREAM placement on DATA). -/
 def clientFrames (C : Codec) (s : C.S) (p : Plan) (r : Req) : List SFrame × C.S :=
-  if r.neverEnds then
-    ((writeHeaderBlock p.sid false p.maxHdr (C.enc s (reqFields r)).1), (C.enc s (reqFields r)).2)
-  else encodeFrames C s { p with earlyEnd := r.earlyEnd } (clientNorm r)
+  encodeFrames C s { p with earlyEnd := r.earlyEnd } (clientNorm r)
 
 /-! ## Request: server side -/
 
